@@ -72,6 +72,8 @@ def concretize_str(model, s):
         elif p.kind == 'mac':
             h = '%012X' % mval(model, p.t)
             out.append('-'.join(h[i:i + 2] for i in range(0, 12, 2)))
+        elif p.kind == 'hexbyte':
+            out.append('%02X' % mval(model, p.t))
         elif p.kind == 'hexint':
             spec, conv = p.extra
             out.append(('%' + spec + conv) % mval(model, p.t))
